@@ -36,6 +36,10 @@ Sig(e) == IF "sig" \in DOMAIN e THEN e.sig ELSE ""
 TNext == /\ l <= Len(TraceLog) /\ l' = l + 1
          /\ LET e == TraceLog[l] IN
             IF e.a = "Reset" THEN UNCHANGED bad
+            \* C08 for programs that log many events: the run's output decoded as ONE stream gives, line by line,
+            \* exactly what each event decodes to alone
+            ELSE IF e.a = "Stream" THEN (IF e.mismatch = 0 /\ e.lines = e.events /\ e.decerr = "" /\ e.decpanic = "" THEN UNCHANGED bad
+                                         ELSE bad' = Append(bad, <<l, "C08 ">>))
             ELSE LET p == P(e)  n == N(e)
                      tag == (IF C09ok(e, p, n) THEN "" ELSE "C09 ") \o (IF C08ok(e, p, n) THEN "" ELSE "C08 ")
                  IN IF tag = "" THEN UNCHANGED bad ELSE bad' = Append(bad, <<l, tag \o Sig(e)>>)
